@@ -936,6 +936,107 @@ def rule_flags_defined(model):
     return r
 
 
+MIRROR_CONTROL = '''
+class View:
+    def __init__(self, seq):
+        self._seq = seq
+        self._len = len(seq)
+
+    def __getitem__(self, idx):
+        if idx < 0:
+            raise IndexError(idx)
+        return self._seq[self._len - 1 - idx]
+
+
+class GuardedView(View):
+    def __getitem__(self, idx):
+        if idx < 0 or idx >= self._len:
+            raise IndexError(idx)
+        return self._seq[self._len - 1 - idx]
+'''
+
+
+def _mirrored_subscripts(model, m_filter=None):
+    """(fi, subscript node, guarded?) for every element reader
+    `__getitem__(self, i)` that reads another sequence at an index computed
+    by subtracting i (a mirrored / offset view)."""
+    out = []
+    for fi in model.all_funcs():
+        if fi.name != '__getitem__' or fi.cls is None:
+            continue
+        ps = fi.params()
+        if len(ps) < 2:
+            continue
+        idx = ps[1]
+        for x in own_nodes(fi.node):
+            if not (isinstance(x, ast.Subscript) and isinstance(
+                    x.ctx, ast.Load)):
+                continue
+            sub = [b for b in ast.walk(x.slice) if isinstance(b, ast.BinOp)
+                   and isinstance(b.op, ast.Sub) and any(
+                       isinstance(y, ast.Name) and y.id == idx
+                       for y in ast.walk(b.right))]
+            if not sub:
+                continue
+            # a guard that refuses indexes at or beyond the length (or a
+            # negative computed index) before the read
+            guarded = False
+            for g in own_nodes(fi.node):
+                if not (isinstance(g, ast.If) and any(
+                        isinstance(y, ast.Raise) for y in ast.walk(g))):
+                    continue
+                for c in ast.walk(g.test):
+                    if isinstance(c, ast.Compare) and len(c.ops) == 1 and \
+                            isinstance(c.ops[0], (ast.GtE, ast.Gt)) and \
+                            isinstance(c.left, ast.Name) and \
+                            c.left.id == idx and not isinstance(
+                                c.comparators[0], ast.Constant):
+                        guarded = True
+                    if isinstance(c, ast.Compare) and len(c.ops) == 1 and \
+                            isinstance(c.ops[0], (ast.Lt, ast.LtE)) and \
+                            not isinstance(c.left, ast.Constant) and \
+                            isinstance(c.left, ast.Name) is False and any(
+                                isinstance(y, ast.Name) and y.id == idx
+                                for y in ast.walk(c.left)):
+                        guarded = True
+            out.append((fi, x, guarded))
+    return out
+
+
+def rule_probe_contract(model):
+    r = RuleResult('C11.R9', 'the window computation finds the end of a '
+                   'sequence by probing past it (sequence[end + orphan - '
+                   '1], sequence[end]) and relies on IndexError: a sequence '
+                   'view of the package that reads its base at an index '
+                   'computed by subtraction refuses indexes beyond the '
+                   'length itself (a negative computed index would wrap '
+                   'around instead of failing)')
+    from ..model import Model
+    cm = Model(sources={'src/DocumentTemplate/zz_mirror_control.py':
+                        MIRROR_CONTROL}, root=None)
+    got = {fi.where: g for fi, _, g in _mirrored_subscripts(cm)}
+    r.control('control: mirrored view without an upper bound check',
+              got.get('zz_mirror_control:View.__getitem__') is False and
+              got.get('zz_mirror_control:GuardedView.__getitem__') is True)
+    readers = [fi for fi in model.all_funcs()
+               if fi.name == '__getitem__' and fi.cls is not None]
+    for fi in readers:
+        r.instance(fi.where, 'def __getitem__', 'element reader scanned')
+    for fi, x, guarded in _mirrored_subscripts(model):
+        r.instance(fi.where, x, 'bounded' if guarded else 'WRAPS AROUND')
+        if not guarded:
+            r.finding(fi.where, x, f'`{norm(x)}`: for an index at or beyond '
+                      'the length the computed index is negative and Python '
+                      'wraps around instead of raising IndexError: the '
+                      'end-of-sequence probes of the batch code never fail '
+                      '(next-sequence true with nothing left, windows not '
+                      'clamped, elements shown twice)', node=x, ctx=fi)
+    if len(readers) < 3:
+        raise AnalysisError(f'C11.R9: only {len(readers)} element readers '
+                            'found')
+    return r
+
+
 def rule_memo_reiterable(model):
     r = RuleResult('C11.R7', 'the batch lists (previous-batches / '
                    'next-batches) and everything else memoised in the '
@@ -951,7 +1052,7 @@ def rule_memo_reiterable(model):
 
 RULES = [_inl(rule_windows), _inl(rule_keys), _inl(rule_params), _inl(rule_opt_forms), _inl(rule_window_invariants),
          _inl(rule_orphan), rule_memo_reiterable,
-         _inl(rule_flags_defined)]
+         _inl(rule_flags_defined), rule_probe_contract]
 EXPLANATION = (
     'Linear normal forms of the arguments of every opt() call and of every '
     'published batch key, compared with the documented formula (sites must '
